@@ -37,6 +37,8 @@ def seeded_table():
     res = json.load(open(path)) if os.path.exists(path) else {}
     rows = ["| seeded change | property | what it does | needs to manifest | demo fails with change / passes without | check verdict | concrete replay |",
             "|----|----|----|----|----|----|----|"]
+    tot = caught = conc_n = obsolete = 0
+    missed = []
     for name in sorted(n for n in os.listdir(os.path.join(VERIF, "seeded")) if os.path.isdir(os.path.join(VERIF, "seeded", n))):
         meta = json.load(open(os.path.join(VERIF, "seeded", name, "meta.json")))
         r = res.get(name, {})
@@ -46,7 +48,20 @@ def seeded_table():
         demo = "%s / %s" % ("yes" if r.get("demo_with_change_rc") == 1 else "?", "yes" if r.get("demo_on_clean_tree_rc") == 0 else "?")
         rows.append("| %s | %s | %s | %s | %s | %s | %s |" % (name, meta["property"], meta.get("what", "").replace("|", "/"),
                                                             meta.get("needs", "").replace("|", "/"), demo, verdict, conc))
-    return "\n".join(rows)
+        if meta.get("obsolete"):
+            obsolete += 1
+        else:
+            tot += 1
+            if verdict == "VIOLATION":
+                caught += 1
+                conc_n += conc == "yes"
+            else:
+                missed.append(name)
+    head = ("**Summary (last run of each change against the final checks):** %d seeded changes are kept, %d are obsolete "
+            "(neutralised by a repair; see their meta.json); of the remaining %d, %d make the property's check print VIOLATION "
+            "(%d with a concrete replay, %d as a broken obligation only) and %d do not: %s.\n"
+            % (tot + obsolete, obsolete, tot, caught, conc_n, caught - conc_n, len(missed), ", ".join(missed) or "none"))
+    return head + "\n" + "\n".join(rows)
 
 
 def benign_table():
